@@ -12,6 +12,17 @@ pub struct Location { pub id: u64 }
 /// `&mut self` so that its effect has a specification.  This is the ASSUMED contract of the
 /// operating system side: `installed` is the disposition currently installed per signal.
 pub trait SignalSystem {
+    // signal numbers of the system (the real trait inherits them from `Signals`)
+    const SIGKILL: signal::Number;
+    const SIGSTOP: signal::Number;
+    const SIGCHLD: signal::Number;
+    const SIGINT: signal::Number;
+    const SIGQUIT: signal::Number;
+    const SIGTERM: signal::Number;
+    const SIGTSTP: signal::Number;
+    const SIGTTIN: signal::Number;
+    const SIGTTOU: signal::Number;
+
     spec fn installed(&self, signal: signal::Number) -> Disposition;
     /// whether installing `disposition` for `signal` is refused by the system (a function of the state)
     spec fn refuses(&self, signal: signal::Number, disposition: Disposition) -> bool;
